@@ -449,6 +449,24 @@ func run(c Case) (vstat.Outcome, error) {
 					if before != after {
 						return out, diffErr(fmt.Sprintf("rejected record (%s, err=%v) changed state or storage (verifier %d, victim %d)", desc, addErr, k, vi), after, before)
 					}
+					// a rejected record is not part of the log for any of the id-resolving calls either
+					inLog := false
+					for _, r := range recs[:cut+1] {
+						if r.Id == mut.Id {
+							inLog = true
+						}
+					}
+					if !inLog {
+						if v.l.HasHead(mut.Id) {
+							return out, fmt.Errorf("HasHead reports the rejected record (%s, err=%v) as known (verifier %d, victim %d)", desc, addErr, k, vi)
+						}
+						if _, gerr := v.l.Get(mut.Id); gerr == nil {
+							return out, fmt.Errorf("Get resolves the rejected record (%s, err=%v) (verifier %d, victim %d)", desc, addErr, k, vi)
+						}
+						if after, aerr := v.l.IsAfter(mut.Id, recs[0].Id); aerr == nil {
+							return out, fmt.Errorf("IsAfter resolves the rejected record (%s, err=%v) -> %v (verifier %d, victim %d)", desc, addErr, after, k, vi)
+						}
+					}
 					classes["tamper-"+tm.Kind] = true
 					nTamperReached++
 				}
@@ -458,6 +476,21 @@ func run(c Case) (vstat.Outcome, error) {
 				}
 				if d := aclgen.Digest(v.l); d != dig[cut+1] {
 					return out, diffErr("state after rejected tampers + valid record vs reference", d, dig[cut+1])
+				}
+				// ... and so does the rest of the log, delivered as one catch-up batch: a record that was
+				// offered too early (or any other rejected delivery) must not keep the replica from
+				// taking it when its turn comes
+				if cut+2 < nrec {
+					if err := v.l.AddRawRecords(cloneAll(recs[cut+1:])); err != nil {
+						return out, fmt.Errorf("catch-up batch after rejected deliveries failed (verifier %d, victim %d): %v", k, vi, err)
+					}
+					if d := aclgen.Digest(v.l); d != dig[nrec-1] {
+						return out, diffErr("state after rejected deliveries + catch-up batch vs reference", d, dig[nrec-1])
+					}
+					if v.l.Head().Id != recs[nrec-1].Id {
+						return out, fmt.Errorf("after rejected deliveries + catch-up batch the head is %s, want %s", v.l.Head().Id, recs[nrec-1].Id)
+					}
+					classes["catch-up-after-rejections"] = true
 				}
 			}
 		}
